@@ -15,7 +15,8 @@ class Sizeof(LetVar):
         self.name = name
         self.size = ceil(op.value_type.bit_width / 8)
 
-        LetVar.__init__(self, name, self.size, ValueType(True, 32))
+        # sizeof yields a size_t (unsigned long).
+        LetVar.__init__(self, name, self.size, ValueType(False, 64))
 
     def __str__(self):
         return f"sizeof({self.size})"
